@@ -31,10 +31,10 @@ Theorem C10_admissible_face_cell : forall c a, c_kind c <> KEdge -> (adm c a = t
 Proof. exact adm_other_spec. Qed.
 Print Assumptions C10_admissible_face_cell.
 
-Theorem C10_tree_edge_is_admissible_adjacency : forall c g v t,
+Theorem C10_admissible_neighbours_unfolded : forall c g v t,
   In t (adm_nbrs c g v) <-> exists a, In a (getl g v) /\ a_tgt a = Some t /\ adm c a = true.
 Proof. exact adm_nbrs_spec. Qed.
-Print Assumptions C10_tree_edge_is_admissible_adjacency.
+Print Assumptions C10_admissible_neighbours_unfolded.
 
 (* --- C10_bfs_tree (full): for every mesh (neighbour slots g with targets in range), configuration and root,
        the BFS of edge_sp/face_sp/cell_sp ends within its fuel; reached = reachable from the root in the admissible
@@ -116,7 +116,9 @@ Theorem C10_generated_decisions :
    (forall ab ip, kr_all_edges ab ip = negb ab || ip) /\ (forall b, kr_keep b = negb b) /\
    (forall b, kr_child_keep b = negb b)) /\
   ((forall b, forest_new_root b = negb b) /\ forest_forwards_exclusions KFace = true /\
-   (forall k p, forest_cfg k p = mkCfg k false false p)).
+   (forall k p, forest_cfg k p = mkCfg k false false p)) /\
+  ((forall k r n, root_ok k r n = (Z.leb 0 r && Z.ltb r n)) /\
+   (forall k, tree_resets k = true) /\ kr_resets = true /\ (forall k, forest_resets k = true)).
 Proof. exact generated_decisions. Qed.
 Print Assumptions C10_generated_decisions.
 
@@ -146,8 +148,9 @@ Theorem C10_kruskal_minimal : forall i kt, kin_ok i -> kruskal i = Some kt ->
 Proof. exact kruskal_minimal_model. Qed.
 Print Assumptions C10_kruskal_minimal.
 
-Theorem C10_kruskal_defined_iff_root_is_vertex : forall i, ki_root i < ki_n i -> exists kt, kruskal i = Some kt.
-Proof. exact kruskal_some. Qed.
+Theorem C10_kruskal_defined_iff_root_is_vertex : forall i,
+  (ki_root i < ki_n i -> exists kt, kruskal i = Some kt) /\ (ki_n i <= ki_root i -> kruskal i = None).
+Proof. exact kruskal_defined. Qed.
 Print Assumptions C10_kruskal_defined_iff_root_is_vertex.
 
 (* acyclicity in its order-free form: in a forest (built by bridging additions) every edge is a bridge, and
@@ -188,3 +191,62 @@ Theorem C10_kruskal_orientation_checker_sound : forall es n cand tl ids root,
     (forall u w, inT u -> adj L u w -> geto par w = Some u \/ geto par u = Some w).
 Proof. exact orient_checked. Qed.
 Print Assumptions C10_kruskal_orientation_checker_sound.
+
+(* --- all roots (full): the starting element is a Python integer; exactly 0..n-1 are accepted - a negative
+       index is refused, not wrapped around - and then the tree is the one of C10_bfs_tree / C10_kruskal *)
+Theorem C10_all_roots : forall c g r,
+  ((0 <= r < Z.of_nat (length g))%Z -> bfs_z c g r = bfs c g (Z.to_nat r) /\ exists t, bfs_z c g r = Some t) /\
+  (~ (0 <= r < Z.of_nat (length g))%Z -> bfs_z c g r = None).
+Proof. exact bfs_z_spec. Qed.
+Print Assumptions C10_all_roots.
+
+Theorem C10_kruskal_all_roots : forall i r,
+  ((0 <= r < Z.of_nat (ki_n i))%Z -> exists kt, kruskal_z i r = Some kt) /\
+  (~ (0 <= r < Z.of_nat (ki_n i))%Z -> kruskal_z i r = None).
+Proof. exact kruskal_z_spec. Qed.
+Print Assumptions C10_kruskal_all_roots.
+
+(* --- compute() / __call__ called again (full): the tables are those of one computation, for trees, forests
+       and the minimal spanning tree (the generated reset flags are what makes `recompute` the identity) *)
+Theorem C10_recompute_idempotent :
+  (forall c g r calls, bfs_calls c g r calls = bfs_z c g r) /\
+  (forall k p g calls, forest_calls k p g calls = forest k p g) /\
+  (forall i r calls, kruskal_calls i r calls = kruskal_z i r).
+Proof. exact recompute_idem. Qed.
+Print Assumptions C10_recompute_idempotent.
+
+(* --- the symmetry hypothesis of C10_forest is evaluated on every observed forest case *)
+Theorem C10_symmetry_checker_sound : forall c g, symb (length g) (adm_nbrs c g) = true -> sym_nb (adm_nbrs c g).
+Proof. exact symb_sound. Qed.
+Print Assumptions C10_symmetry_checker_sound.
+
+(* --- forest.traverse (full): every element of the mesh exactly once, both orders *)
+Theorem C10_forest_traverse : forall k polyline g order_is_BFS,
+  wf_raw g ->
+  let c := forest_cfg k polyline in
+  let g' := forest_graph k g in
+  sym_nb (adm_nbrs c g') ->
+  let out := forest_traverse order_is_BFS (forest k polyline g) in
+  NoDup (map fst out) /\ (forall v, In v (map fst out) <-> v < length g').
+Proof. exact forest_traverse_correct. Qed.
+Print Assumptions C10_forest_traverse.
+
+(* --- traverse on the oriented minimal spanning tree (full), whatever the order of each children list
+       (they come from Python sets): exactly the root's component, each once, parents first *)
+Theorem C10_kruskal_traverse : forall i kt ch, kruskal_spec i kt -> length ch = ki_n i ->
+  (forall v, v < ki_n i -> same_set (getl (kt_children kt) v) (getl ch v) = true) ->
+  forall order_is_BFS, exists out,
+    traverse order_is_BFS (ki_root i) ch = (out, true) /\
+    traversal_ok (fun v => econn (eds (edge_at (ki_edges i)) (kt_ids kt)) (ki_root i) v) (kt_parent kt) out.
+Proof. exact kruskal_traverse. Qed.
+Print Assumptions C10_kruskal_traverse.
+
+(* --- tables of a rooted tree stay tables of that tree when each children list is reordered (accepted by
+       same_set): closes the gap between the orientation the checker recomputes and the implementation's
+       children lists, which come from Python sets *)
+Theorem C10_tables_up_to_children_order : forall n root inT par ch ch' dep,
+  tree_tables n root inT par ch dep -> length ch' = n ->
+  (forall v, v < n -> same_set (getl ch v) (getl ch' v) = true) ->
+  tree_tables n root inT par ch' dep.
+Proof. exact tree_tables_perm. Qed.
+Print Assumptions C10_tables_up_to_children_order.
